@@ -135,6 +135,22 @@ func (s *Spec) Graph(fn *ssa.Function) *Graph {
 	return g
 }
 
+// Eval evaluates v (a value of fn) under the specialisation: constants, mode fields, and phis whose
+// infeasible incoming edges are ignored.
+func (s *Spec) Eval(fn *ssa.Function, v ssa.Value) aval {
+	g := s.Graph(fn)
+	feasible := map[Edge]bool{}
+	for _, b := range fn.Blocks {
+		for i := range b.Succs {
+			if !g.Dead[Edge{From: b, Succ: i}] {
+				feasible[Edge{From: b, Succ: i}] = true
+			}
+		}
+	}
+	ev := &evaluator{s: s, fn: fn, feasible: feasible, reach: g.Reachable(), memo: map[ssa.Value]aval{}}
+	return ev.eval(v, 0)
+}
+
 type evaluator struct {
 	s        *Spec
 	fn       *ssa.Function
